@@ -475,7 +475,69 @@ def random_strategy(tier):
                      st.sampled_from(["ascii", "ascii", "utf-8", "latin-1"]))
 
 
+# ---- stores whose value the serializer refuses --------------------------------------------------------------------------
+
+class _RefusingSerde:
+    """a serializer that cannot serialize what it is given (as pickle cannot a lambda, json not a set)"""
+
+    def __init__(self):
+        self.keys_seen = []
+
+    def serialize(self, key, value):
+        self.keys_seen.append(key)
+        raise TypeError("cannot serialize %r" % type(value).__name__)
+
+    def deserialize(self, key, value, flags):
+        return value
+
+
+def refused_value_cases(tier, seed):
+    bad = [" ", "a b", "k\r\n", "tab\there", b"nul\x00", "k" * 251, "caf\u00e9", b"\x0bvt", "end\n"]
+    for key in bad:
+        for prefix in (b"", b"p:"):
+            for kind in ("client", "pooled", "hash", "hash-pooled"):
+                for op in ("set", "add", "replace", "append", "prepend", "cas", "set_many", "setitem"):
+                    for sd in ("refusing", "pickle-lambda"):
+                        for pair in (False, True):
+                            if pair and not kind.startswith("hash"):
+                                continue
+                            if op == "setitem" and kind.startswith("hash"):
+                                continue
+                            yield (key, prefix, kind, op, sd, pair)
+
+
+def check_refused_value(case):
+    """an illegal key is refused as an illegal key (MemcacheIllegalInputError, nothing sent) whatever the value is - also a value
+    the configured serializer cannot serialize: the key is judged first"""
+    key, prefix, kind, op, sd, pair = case
+    from pymemcache import serde as S_
+    env = Env()
+    ser = _RefusingSerde() if sd == "refusing" else S_.pickle_serde
+    value = (lambda: None) if sd == "pickle-lambda" else {"a", "set"}
+    c = env.client(kind, key_prefix=prefix, serde=ser)
+    k = ("routing-key", key) if pair else key
+    mark = len(env.net.log)
+    if op == "set_many":
+        r = env.call(c.set_many, {k: value}, noreply=False)
+    elif op == "cas":
+        r = env.call(c.cas, k, value, b"1")
+    elif op == "setitem":
+        r = env.call(c.__setitem__, k, value)
+    else:
+        r = env.call(getattr(c, op), k, value, noreply=False)
+    sent = any(e[3] == "sendall" for e in env.net.log[mark:])
+    desc = "%s(%r, <a value the serializer refuses: %s>) prefix=%r on %s" % (op, k, sd, prefix, kind)
+    if r[0] == "ok":
+        raise Violation(["accepted-illegal", "refused-value", op], "illegal key accepted: %s" % desc)
+    if not isinstance(r[1], MemcacheIllegalInputError):
+        raise Violation(["wrong-exception", "refused-value", op, type(r[1]).__name__], "rejected with %r instead of MemcacheIllegalInputError: %s" % (r[1], desc))
+    if sent:
+        raise Violation(["sent-before-reject", "refused-value", op], "bytes were written although the key is illegal: %s" % desc)
+    return True, ["refused-value", kind, op]
+
+
 PARTS = [
+    Part("illegal-keys-with-values-the-serializer-refuses", "enum", check_refused_value, cases=refused_value_cases, exhaustive=True),
     Part("an-illegal-key-among-many", "enum", check_list, cases=list_cases, exhaustive=True),
     Part("key-objects", "enum", check_key_object, cases=key_object_cases, exhaustive=True),
     Part("class-exhaustive", "enum", check, cases=class_cases, exhaustive=True),
